@@ -7,7 +7,7 @@ from __future__ import annotations
 
 from kit.engine import Cond
 from kit import oracle as O
-from kit.state import mk, raw, call, classes, is_stream, is_mutable, same
+from kit.state import mk, raw, call, classes, is_stream, is_mutable, same, get_attr, set_attr
 from harness.common import CLS, _obj, _unchanged, _operand, _operand_unchanged
 
 ASSUMPTIONS = [
@@ -88,7 +88,7 @@ def h_insert(cname, rkind, n, m, op):
         other, y, ocls = _operand_or_self(K, s, x, rkind, m)
         m_ = len(y)
         p = K.int('p')
-        r = call(lambda: getattr(s, op)(other, p))
+        r = call(lambda: get_attr(s, op)(other, p))
         if m_ == 0:
             return K.check(r.ok and r.value is None and _unchanged(K, s, x, pos), 'empty operand must be a no-op', exc=r.excname)
         q = p + n if p < 0 else p
